@@ -150,9 +150,12 @@ def with_alarm(seconds, f, *a, **k):
 
 
 def import_freephil():
-    """Import freephil from /repo/src (the current working tree) - never from elsewhere."""
-    if "/repo/src" not in sys.path:
-        sys.path.insert(0, "/repo/src")
+    """Import freephil from /repo/src (the current working tree) - never from elsewhere.
+    VERIF_IMPL_SRC overrides the location for mutation experiments on scratch copies only
+    (registered checks never set it)."""
+    src = os.environ.get("VERIF_IMPL_SRC", "/repo/src")
+    if src not in sys.path:
+        sys.path.insert(0, src)
     os.environ.setdefault("FREEPHIL_VERIF", "1")
     import warnings
 
@@ -160,8 +163,8 @@ def import_freephil():
     import freephil
 
     f = os.path.realpath(freephil.__file__)
-    if not f.startswith("/repo/src/"):
-        raise HarnessError("freephil imported from %s, not /repo/src" % f)
+    if not f.startswith(os.path.realpath(src) + "/"):
+        raise HarnessError("freephil imported from %s, not %s" % (f, src))
     return freephil
 
 
